@@ -249,6 +249,8 @@ EXPORT char *_stpncpy_s_chk(char *restrict dest, rsize_t dmax,
             *dest = *src;
             if (*dest == '\0') {
               eok:
+                /* the result is the address of the terminating null byte */
+                orig_dest = dest;
 #ifdef SAFECLIB_STR_NULL_SLACK
                 /* null slack to clear any data */
                 if (dmax > 0x20)
@@ -262,7 +264,7 @@ EXPORT char *_stpncpy_s_chk(char *restrict dest, rsize_t dmax,
                 }
 #endif
                 *errp = RCNEGATE(EOK);
-                return dest;
+                return orig_dest;
             }
 
             dmax--;
